@@ -12,6 +12,7 @@ One CASE = one returned subexperiment (partition label, sample z, group j) of on
 """
 from __future__ import annotations
 
+import json
 from fractions import Fraction
 
 import numpy as np
@@ -49,7 +50,7 @@ def unfr(p):
 # --------------------------------------------------------------------------------------
 
 def build_circuit(desc):
-    qc = QuantumCircuit(desc["nq"])
+    qc = QuantumCircuit(desc["nq"], desc["nc"]) if desc.get("nc") else QuantumCircuit(desc["nq"])
     for it in desc["items"]:
         k = it[0]
         if k == "g":
@@ -61,6 +62,10 @@ def build_circuit(desc):
             qc.append(Move(), [it[1], it[2]])
         elif k == "barrier":
             qc.barrier(*it[1])
+        elif k == "reset":
+            qc.reset(it[1])
+        elif k == "measure":
+            qc.measure(it[1], it[2])
         else:
             raise ValueError(it)
     return qc
@@ -322,7 +327,7 @@ def wire_sequences(out, nq):
     return [[d["op"][0] for d in out if q in d["qs"]] for q in range(nq)]
 
 
-def judge(case):
+def judge(case, _values=None):
     c = case["canon"]
     out = c["out"]
     wires = wire_sequences(out, c["nq"])
@@ -342,7 +347,7 @@ def judge(case):
         probs.append(f"no qubit is re-used, yet the subexperiment (partition {case['pick'][0]}, sample {case['pick'][1]}, "
                      f"group {case['pick'][2]}, pauli_indices {c['idx']}) contains {nreset} reset(s): "
                      f"wires {wires}")
-    vst, vdetail = values_check(case)
+    vst, vdetail = _values if _values is not None else values_check(case)
     if vst == "differs":
         probs.append(vdetail)
     if probs:
@@ -404,8 +409,8 @@ def rand_obs(rng, n, style):
 
 
 def gen_markers(rng):
-    """circuit on 1..4 qubits, 1..3 CutWire markers (first / last / interleaved on a wire); markers of one qubit are
-    contiguous in the marker list (no markers of OTHER qubits in between: that class belongs to defect F1 / C03)."""
+    """circuit on 1..4 qubits, 1..3 CutWire markers (first / last / interleaved on a wire, also interleaved ACROSS qubits:
+    a, b, a)."""
     nq = int(rng.integers(1, 5))
     ncut = int(rng.integers(1, 4))
     # choose marker qubits as contiguous runs (distinct qubits per run)
@@ -417,6 +422,8 @@ def gen_markers(rng):
             break
         run = left if pos == len(order) - 1 else int(rng.integers(1, left + 1))
         qs.extend([q] * run)
+    if rng.integers(0, 3) == 0:
+        qs = [qs[int(i)] for i in rng.permutation(len(qs))]      # markers of different qubits interleaved (a, b, a)
     ngates = int(rng.integers(0, 7))
     gates = [rand_gate(rng, nq) for _ in range(ngates)]
     # make every qubit non-idle
@@ -471,7 +478,8 @@ def gen_moves(rng, reuse):
             if rng.integers(0, 2):
                 a = live[int(rng.integers(0, len(live) - 1))]
                 items.append(["g", "cx", [], [a, q]])
-        return nq, items, dead
+        pi = [int(x) for x in rng.permutation(nq)]      # sources/destinations in any index order
+        return nq, relabel_items(items, pi), [pi[q] for q in dead]
     # re-use chain
     items.append(["g", "h", [], [0]])
     cur = 0
@@ -487,6 +495,68 @@ def gen_moves(rng, reuse):
         if not any(q in (it[3] if it[0] == "g" else it[1:3]) for it in items):
             items.append(["g", "h", [], [q]])
     return nq, items, []
+
+
+def relabel_items(items, pi):
+    out = []
+    for it in items:
+        k = it[0]
+        if k == "g":
+            out.append(["g", it[1], it[2], [pi[q] for q in it[3]]])
+        elif k == "move":
+            out.append(["move", pi[it[1]], pi[it[2]]])
+        elif k == "cut":
+            out.append(["cut", pi[it[1]]])
+        elif k == "barrier":
+            out.append(["barrier", [pi[q] for q in it[1]]])
+        elif k == "reset":
+            out.append(["reset", pi[it[1]]])
+        elif k == "measure":
+            out.append(["measure", pi[it[1]], it[2]])
+        else:
+            raise ValueError(it)
+    return out
+
+
+def sprinkle(rng, items, nq, kinds, nc=0, count=None):
+    """insert random barrier / user reset / mid-circuit measure items."""
+    items = list(items)
+    for _ in range(int(rng.integers(1, 4)) if count is None else count):
+        kind = kinds[int(rng.integers(0, len(kinds)))]
+        q = int(rng.integers(0, nq))
+        if kind == "barrier":
+            m = 1 if rng.integers(0, 3) else int(rng.integers(1, nq + 1))
+            it = ["barrier", sorted({q} | {int(x) for x in rng.permutation(nq)[:m - 1]})]
+        elif kind == "reset":
+            it = ["reset", q]
+        else:
+            if not nc:
+                continue
+            it = ["measure", q, int(rng.integers(0, nc))]
+        items.insert(int(rng.integers(0, len(items) + 1)), it)
+    return items
+
+
+def identity_on(obs, qubits):
+    out = []
+    for o in obs:
+        ls = list(o)
+        for q in qubits:
+            ls[len(ls) - 1 - q] = "I"
+        out.append("".join(ls))
+    return list(dict.fromkeys(out))
+
+
+def crossing_labels(rng, items, nq, alphabet):
+    mv = [x for x in items if x[0] == "move"]
+    labels = None
+    for _ in range(12):
+        labels = [alphabet[int(rng.integers(0, len(alphabet)))] for _ in range(nq)]
+        if any(labels[m[1]] != labels[m[2]] for m in mv):
+            break
+    if all(isinstance(x, str) for x in labels):
+        return "".join(labels)
+    return labels
 
 
 FIXED = [
@@ -512,6 +582,20 @@ FIXED = [
                       ["move", 0, 1], ["g", "sx", [], [1]]], obs=["ZI", "XZ"], flow="single", labels=None, num_samples="inf", seed=8),
     dict(nq=3, items=[["g", "h", [], [0]], ["move", 0, 1], ["move", 1, 2], ["g", "cx", [], [2, 0]], ["move", 2, 1],
                       ["move", 1, 0], ["g", "h", [], [2]]], obs=["ZZZ", "IXI"], flow="single", labels=None, num_samples=6, seed=9),
+    # markers interleaved ACROSS qubits: cut 0; cut 1; cut 0
+    dict(nq=2, items=[["g", "h", [], [0]], ["cut", 0], ["g", "cx", [], [0, 1]], ["cut", 1], ["g", "h", [], [1]], ["cut", 0],
+                      ["g", "x", [], [0]]], obs=["II", "IZ"], flow="auto", labels=None, num_samples=6, seed=10),
+    dict(nq=2, items=[["cut", 0], ["cut", 1], ["cut", 0], ["g", "cx", [], [0, 1]]], obs=["ZZ", "II"], flow="single", labels=None,
+         num_samples=4, seed=11),
+    # unseparated, own classical register, mid-circuit measurement, a user reset, identity group (dummy measurement)
+    dict(nq=2, nc=1, items=[["g", "h", [], [0]], ["measure", 0, 0], ["g", "cx", [], [0, 1]], ["cut", 0], ["g", "x", [], [0]],
+                            ["reset", 1], ["g", "h", [], [1]]], obs=["II", "ZI"], flow="single", labels=None, num_samples="inf", seed=12),
+    # a barrier before anything else, then a cut: the destination's leading reset comes after an early barrier elsewhere
+    dict(nq=2, items=[["barrier", [1]], ["g", "h", [], [0]], ["cut", 0], ["g", "cx", [], [0, 1]]], obs=["ZI", "II"], flow="single",
+         labels=None, num_samples="inf", seed=13),
+    # hand-placed fresh Move, three explicit labels, idle qubit 3
+    dict(nq=4, items=[["g", "h", [], [2]], ["move", 2, 0], ["g", "cx", [], [0, 1]]], obs=["IIZZ", "IIXI"], flow="labels",
+         labels="ACBA", num_samples="inf", seed=14),
 ]
 
 
@@ -533,6 +617,9 @@ def pick_triples(rng, run, per_problem):
 
 
 def emit_problem(w, rng, stream, desc, per_problem):
+    ncuts = sum(1 for x in desc["items"] if x[0] in ("cut", "move"))
+    if stream != "fixed" and desc["num_samples"] == "inf" and (ncuts >= 4 or (ncuts == 3 and rng.integers(0, 4))):
+        desc["num_samples"] = int(rng.integers(1, 9))     # 8^k samples x groups x partitions: keep the exact budget for small k
     try:
         run = run_problem(desc)
     except ValueError as e:
@@ -546,6 +633,7 @@ def emit_problem(w, rng, stream, desc, per_problem):
     w.count(stream + ".problem", "ok")
     nr, _ = problem_has_no_reuse(run["full"], run["full_benv"], run["obs_full"])
     w.count(stream + ".no_reuse", nr)
+    w.count(stream + ".flow+no_reuse", f"{desc['flow']}/{nr}")
     w.count(stream + ".flow", desc["flow"])
     w.count(stream + ".budget", desc["num_samples"])
     w.count(stream + ".cuts", len(moves_of(run["full"], run["full_benv"])))
@@ -555,14 +643,26 @@ def emit_problem(w, rng, stream, desc, per_problem):
     w.contract("experiments_are_samples_x_groups_per_partition", ok_shape and run["ncoeff"] == len(run["sorted_samples"]))
     n = 0
     for (label, z, j) in pick_triples(rng, run, per_problem):
-        case, contracts = subexperiment_case(desc, run, label, z, j)
+        try:
+            case, contracts = subexperiment_case(desc, run, label, z, j)
+        except Exception as e:  # noqa: BLE001  (e.g. a private helper was renamed: report, do not crash the generator)
+            w.contract("prepass_circuit_can_be_rebuilt_through_the_private_functions", False)
+            w.notes.append(f"{stream}: rebuilding the pre-pass circuit failed with {type(e).__name__}: {str(e)[:120]}")
+            continue
+        w.contract("prepass_circuit_can_be_rebuilt_through_the_private_functions", True)
         for k, v in contracts.items():
             w.contract(k, v)
         c = case["canon"]
+        vres = values_check(case)
+        verdict = judge(case, _values=vres)
+        # every generated case is judged, also when model and implementation agree
+        w.contract("judge_accepts_clean_case", not verdict["violates"])
+        if verdict["violates"] and len(w.notes) < 20:
+            w.notes.append(f"{stream}: judge flags {json.dumps(desc)} pick {[_jsonable(label), z, j]}: {verdict['detail'][:200]}")
         nreset = sum(1 for d in c["out"] if d["op"][0] == "reset")
         ndec = sum(1 for d in c["dec"] if d["op"][0] == "reset")
         w.add(stream, "chk_subexperiment", coq_case(c), case, nontrivial=ndec > 0)
-        w.count(stream + ".values_check", values_check(case)[0])
+        w.count(stream + ".values_check", vres[0])
         w.count(stream + ".dummy_measurement", not c["idx"])
         w.count(stream + ".resets_before_passes", min(ndec, 4))
         w.count(stream + ".resets_left", min(nreset, 3))
@@ -574,10 +674,12 @@ def emit_problem(w, rng, stream, desc, per_problem):
 def generate(rng, tier, outdir):
     w = CaseWriter(outdir, IMPORTS, case_types={"chk_subexperiment": "c19_case"})
     quick = tier == "quick"
-    n_markers = 44 if quick else 460
-    n_onsrc = 18 if quick else 160
-    n_fresh = 16 if quick else 140
-    n_reuse = 16 if quick else 140
+    n_markers = 34 if quick else 460
+    n_onsrc = 10 if quick else 140
+    n_fresh = 8 if quick else 100
+    n_fresh_labels = 10 if quick else 140
+    n_dynamic = 12 if quick else 160
+    n_reuse = 10 if quick else 120
     per_problem = 8 if quick else 12
 
     for desc in FIXED:
@@ -613,9 +715,12 @@ def generate(rng, tier, outdir):
         obs = rand_obs(rng, nq, style)
         flow = ["auto", "auto", "single", "labels"][it % 4]
         labels = None
+        if it % 5 == 0:
+            items = sprinkle(rng, items, nq, ["barrier"], count=1)
         if flow == "labels":
             full_n = nq + sum(1 for x in items if x[0] == "cut")
-            labels = "".join("AB"[int(rng.integers(0, 2))] for _ in range(full_n))
+            alpha = "AB" if it % 8 else "ABC"
+            labels = "".join(alpha[int(rng.integers(0, len(alpha)))] for _ in range(full_n))
         ns = "inf" if it % 3 else int(rng.integers(1, 7))
         desc = dict(nq=nq, items=items, obs=obs, flow=flow, labels=labels, num_samples=ns, seed=int(rng.integers(0, 2**31)))
         emit_problem(w, rng, "markers", desc, per_problem)
@@ -638,6 +743,40 @@ def generate(rng, tier, outdir):
         desc = dict(nq=nq, items=items, obs=obs, flow=flow, labels=None, num_samples=ns, seed=int(rng.integers(0, 2**31)))
         emit_problem(w, rng, "moves_fresh", desc, per_problem)
 
+    # hand-placed fresh Moves, explicit labels (2-3 letters / ints), identity on every abandoned qubit (no re-use),
+    # optional barriers and an idle qubit
+    for it in range(n_fresh_labels):
+        nq, items, dead = gen_moves(rng, reuse=False)
+        idle = []
+        if it % 3 == 0:
+            idle = [nq]
+            nq += 1
+        if it % 2 == 0:
+            items = sprinkle(rng, items, nq - len(idle), ["barrier"], count=1)
+        obs = identity_on(rand_obs(rng, nq, ["dense", "sparse", "identity"][it % 3]), dead + idle)
+        alphabet = [["A", "B"], ["A", "B", "C"], [0, 1, 2]][it % 3]
+        flow = "labels" if it % 4 else "auto"
+        labels = crossing_labels(rng, items, nq, alphabet) if flow == "labels" else None
+        ns = "inf" if it % 3 else int(rng.integers(1, 7))
+        desc = dict(nq=nq, items=items, obs=obs, flow=flow, labels=labels, num_samples=ns, seed=int(rng.integers(0, 2**31)))
+        emit_problem(w, rng, "moves_fresh_labels", desc, per_problem)
+
+    # unseparated circuits with own classical bits, mid-circuit measurements, user resets, barriers
+    for it in range(n_dynamic):
+        if it % 2:
+            nq, items = gen_markers(rng)
+            dead = []
+        else:
+            nq, items, dead = gen_moves(rng, reuse=bool(it % 4))
+        nc = int(rng.integers(1, 3)) if it % 2 else 0        # cut_gates refuses circuits with classical registers
+        items = sprinkle(rng, items, nq, ["reset", "measure", "measure", "barrier"] if nc else ["reset", "barrier"], nc=nc)
+        obs = rand_obs(rng, nq, ["dense", "identity", "sparse"][it % 3])
+        if it % 3 == 0:
+            obs = identity_on(obs, dead)
+        ns = "inf" if it % 3 else int(rng.integers(1, 7))
+        desc = dict(nq=nq, nc=nc, items=items, obs=obs, flow="single", labels=None, num_samples=ns, seed=int(rng.integers(0, 2**31)))
+        emit_problem(w, rng, "dynamic_unseparated", desc, per_problem)
+
     for it in range(n_reuse):
         nq, items, _ = gen_moves(rng, reuse=True)
         obs = rand_obs(rng, nq, ["dense", "sparse", "identity"][it % 3])
@@ -648,10 +787,12 @@ def generate(rng, tier, outdir):
 
     return w.finish(
         rule="problems: (markers) random circuits on 1..4 qubits, 0..6 gates, 1..3 CutWire markers at any position (first/last "
-        "on a wire, several on one wire; markers of one qubit contiguous in the marker list), through cut_wires + "
+        "on a wire, several on one wire), through cut_wires + "
         "expand_observables; (moves_fresh) hand-placed Moves onto fresh qubits from abandoned qubits; (moves_obs_on_source) the same with "
-        "observables that are NOT the identity on the abandoned source qubits (counts as a use); (moves_reuse) Move chains that "
-        "re-use qubits. Observables: 1..3 Pauli strings, dense / single-letter / identity-only (identity on whole partitions); "
+        "observables that are NOT the identity on the abandoned source qubits (counts as a use); (moves_fresh_labels) fresh Moves with explicit 2-3 letter / integer labels, identity on "
+        "abandoned qubits, optional barrier and idle qubit; (dynamic_unseparated) unseparated circuits with own classical bits, "
+        "mid-circuit measurements, user resets and barriers; (moves_reuse) Move chains that re-use qubits. Markers may be interleaved "
+        "across qubits (a, b, a). EVERY generated case is judged (contract judge_accepts_clean_case). Observables: 1..3 Pauli strings, dense / single-letter / identity-only (identity on whole partitions); "
         "flows: partition_problem with automatic labels, with explicit random A/B labels (crossing gates are cut too), and the "
         "unseparated call; budgets inf and 1..6. Per problem the sampling is replayed under the same numpy seed and for up to "
         "8 (thorough 12) (partition, sample, group) triples - every (partition, group) at least once, every identity group - the "
